@@ -208,3 +208,17 @@ def _(u):
 
     rowlocal(u, "mask", lambda u, B: state(u, B, N), lambda u, td: u.run(F, "CVRPEnv.get_action_mask", td),
              requires=lambda u, td, B: state_ok(u, td, B, N, mask_consistent=False))
+
+
+@unit("cvrp.reward", file=F, func="CVRPEnv._get_reward", props=("C03",), note="also the reward of SDVRPEnv and CVRPTWEnv (inherited / delegated)")
+def _(u):
+    from .envlib import depot_tour_reward_unit
+
+    depot_tour_reward_unit(u, F, "CVRPEnv._get_reward", "CVRPEnv")
+
+
+@unit("cvrp.rowlocal.reward", file=F, func="CVRPEnv._get_reward", props=("C04",))
+def _(u):
+    from .envlib import depot_tour_reward_rowlocal
+
+    depot_tour_reward_rowlocal(u, F, "CVRPEnv._get_reward", "CVRPEnv")
